@@ -35,14 +35,40 @@ def all_paths(root):
   return out
 
 
+def gap_roots():
+  """Buildables whose positional (int-keyed) arguments are not a gap-free prefix of the ordered
+  arguments: a defaulted parameter before *args left unset, a deleted positional-only argument."""
+  def defaulted_before_varargs():
+    shared = [7]
+    cfg = fdl.Config(pool.fa, [0], shared)
+    cfg[fdl.VARARGS:] = [[3], shared, fdl.Config(pool.fb, shared)]
+    return cfg
+  def hole_at_front():
+    shared = {'s': 1}
+    cfg = fdl.Config(pool.fa, [0], shared, 5, shared, k=shared)
+    del cfg[0]
+    return cfg
+  def nested_gaps():
+    inner = defaulted_before_varargs()
+    return fdl.Config(pool.fa, inner, k=[inner, hole_at_front()])
+  def partial_with_gap():
+    cfg = fdl.Partial(pool.fa)
+    cfg[fdl.VARARGS:] = [[1], [2]]
+    return cfg
+  return dict(defaulted_before_varargs=defaulted_before_varargs, hole_at_front=hole_at_front,
+              nested_gaps=nested_gaps, partial_with_gap=partial_with_gap)
+
+
 def check_structure(args):
   kind, spec = args
   viols = []
   def bad(what):
-    viols.append(dict(kind=kind, spec=spec if kind == 'pool' else [[k, list(s)] for k, s in spec],
-                      what=what, sig=str(spec) if kind == 'pool' else dags.label(spec), store='', op=''))
+    viols.append(dict(kind=kind, spec=spec if kind in ('pool', 'gaps') else [[k, list(s)] for k, s in spec],
+                      what=what, sig=str(spec) if kind in ('pool', 'gaps') else dags.label(spec), store='', op=''))
   if kind == 'pool':
     root = dict(pool.make_pool())[spec]()
+  elif kind == 'gaps':
+    root = gap_roots()[spec]()
   else:
     root, _ = dags.build_shape(spec)
   expected = all_paths(root)
@@ -69,8 +95,11 @@ def check_structure(args):
   if set(ids) != want_ids:
     bad(f'memoized traversal visited {len(ids)} distinct memoizable objects, expected {len(want_ids)}')
   for v, p in mem:
-    if daglish.follow_path(root, p) is not v:
-      bad('memoized traversal reported an unsound path')
+    try:
+      if daglish.follow_path(root, p) is not v:
+        bad(f'memoized traversal reported an unsound path {daglish.path_str(p)}')
+    except Exception as e:   # pylint: disable=broad-except
+      bad(f'memoized traversal reported path {daglish.path_str(p)}, which cannot be followed: {type(e).__name__}')
   # all-paths query
   by_id = collections.defaultdict(set)
   for p, v in expected:
@@ -251,8 +280,8 @@ def replay(case):
     r = cycle_case()
   elif case['kind'] == 'special':
     r = special_cases()
-  elif case['kind'] == 'pool':
-    r = check_structure(('pool', case['spec']))
+  elif case['kind'] in ('pool', 'gaps'):
+    r = check_structure((case['kind'], case['spec']))
   else:
     r = check_structure(('shape', tuple((k, tuple(s)) for k, s in case['spec'])))
   return r[2][0]['what'] if r[2] else None
@@ -262,6 +291,7 @@ def run(tier='quick', seed=0, nproc=16):
   n = 3 if tier == 'quick' else 4
   jobs = [('shape', s) for s in dags.shapes_upto(n, kinds='CLTD')]
   jobs += [('pool', name) for name, _ in pool.make_pool()]
+  jobs += [('gaps', name) for name in gap_roots()]
   res = common.pmap(check_structure, gen.shuffled(jobs), nproc)
   res.append(common.guard(cycle_case))
   res.append(common.guard(special_cases))
@@ -270,7 +300,7 @@ def run(tier='quick', seed=0, nproc=16):
   return common.merge(
       res, 'layerb.prop_C08',
       rule='every DAG shape <= %d nodes over Config/list/tuple/dict + pool configurations '
-           '(positional Buildable arguments, defaultdict, named tuples, empty containers): '
+           '(positional Buildable arguments, also with gaps in the positions; defaultdict, named tuples, empty containers): '
            'un-memoized traversal = independently computed path multiset, each path followed with '
            '`is`; memoized traversal = every memoizable object once; get_all_paths / '
            'collect_paths_by_id = exact path sets; identity traversal preserves canonical form; '
